@@ -269,7 +269,11 @@ class EngineBase:
         ty = self.field_type(cls, field)
         r = ref.t
         if ty in ('num', 'int'):
-            return Sym('num', z3.Select(self.heap_arr(st, cls, field, R), r), isint=(ty == 'int'))
+            t = z3.Select(self.heap_arr(st, cls, field, R), r)
+            if ty == 'int' and st is self.st:
+                # typing invariant of the entity heap: 'int' fields hold whole numbers (checked at every write)
+                st.assume(z3.IsInt(t))
+            return Sym('num', t, isint=(ty == 'int'))
         if ty == 'bool':
             return Sym('bool', z3.Select(self.heap_arr(st, cls, field, B), r))
         if ty in ('str', 'any'):
@@ -310,6 +314,9 @@ class EngineBase:
                 st.heap[(cls, field + '.none')] = z3.Store(a, r, z3.BoolVal(True))
                 return
             v = self.num(val)
+            if ty == 'int' and not (isinstance(val, int) or getattr(val, 'isint', False)):
+                fn = self.fn_stack[-1].qual if self.fn_stack else '?'
+                self.oblige(f"type:{fn}:{cls}.{field}-holds-a-whole-number", 'exc', z3.IsInt(v))
             a = self.heap_arr(st, cls, field, R)
             st.heap[(cls, field)] = z3.Store(a, r, v)
             if ty == 'optnum':
